@@ -13,7 +13,6 @@ import (
 	"time"
 
 	"github.com/arm-doe/sts"
-	"github.com/arm-doe/sts/fileutil"
 )
 
 type logMsg struct {
@@ -65,11 +64,7 @@ func (f *FileIO) Sent(file sts.Sent) {
 }
 
 func (f *FileIO) wasWritten(relPath, hash string, after time.Time, before time.Time) bool {
-	strings := []string{relPath}
-	if hash != "" {
-		strings = append(strings, fmt.Sprintf(":%s:", hash))
-	}
-	return f.logger.search(strings, after, before)
+	return f.logger.search(relPath, hash, after, before)
 }
 
 // WasSent tries to find the path specified between the times specified
@@ -364,24 +359,31 @@ func (rf *rollingFile) eachLine(handler func(string) bool,
 	return broke
 }
 
-// search will look for a given text patterns to match a single line in the log
-// history
-func (rf *rollingFile) search(text []string, start time.Time, stop time.Time) bool {
-	if len(text) == 0 {
+// search looks for a record of exactly the named file in the log history,
+// optionally with the given hash ("" matches any).  A record is a line that
+// starts with the name followed by the field separator.  Every record of the
+// name is examined, not just the first line of a day that happens to contain
+// the name, so a file logged again with another hash is still found and
+// records of other files whose names merely contain the name are not.
+func (rf *rollingFile) search(name, hash string, start time.Time, stop time.Time) bool {
+	if name == "" {
 		return false
 	}
-	b := []byte(text[0])
-	var line string
-	return rf.each(func(path string) bool {
-		line = fileutil.FindLine(path, b)
-		if line == "" {
+	prefix := name + ":"
+	return rf.eachLine(func(line string) bool {
+		if !strings.HasPrefix(line, prefix) {
 			return false
 		}
-		for _, t := range text[1:] {
-			if !strings.Contains(line, t) {
-				return false
-			}
+		if hash == "" {
+			return true
 		}
-		return true
+		// Sent:     name:hash:size:time: N ms
+		// Received: name:renamed:hash:size:time:
+		fields := strings.Split(line[len(prefix):], ":")
+		found := fields[0]
+		if len(fields) > 4 {
+			found = fields[1]
+		}
+		return found == hash
 	}, start, stop)
 }
